@@ -32,6 +32,9 @@ type FaultCase struct {
 	ReArm bool `json:"rearm,omitempty"`
 	// Limit: 0 none; 1 SetReadLimit(largest message's wire size); 2 SetReadLimit(2^30).
 	Limit int `json:"limit,omitempty"`
+	// LocalClose: the application has sent its own close frame before it reads
+	// (and goes on reading until the peer's close or the end of the transport).
+	LocalClose bool `json:"local_close,omitempty"`
 }
 
 type faultKind struct {
@@ -73,6 +76,7 @@ func genFaultCase(t *rapid.T) FaultCase {
 	c.OnlyOffset = -1
 	c.ReArm = rapid.Bool().Draw(t, "rearm")
 	c.Limit = rapid.SampledFrom([]int{0, 0, 1, 2}).Draw(t, "limit")
+	c.LocalClose = rapid.IntRange(0, 3).Draw(t, "local_close") == 0
 	if rapid.IntRange(0, 5).Draw(t, "join") == 0 {
 		c.Join = true
 		c.Term = rapid.SampledFrom([]string{"\n", "||", "\n", ""}).Draw(t, "term")
@@ -203,6 +207,9 @@ func applyFaultCaseSettings(c FaultCase, model *Model, conn *websocket.Conn) {
 		conn.SetReadLimit(int64(limit))
 	case 2:
 		conn.SetReadLimit(1 << 30)
+	}
+	if c.LocalClose {
+		conn.WriteControl(websocket.CloseMessage, websocket.FormatCloseMessage(1001, "going away"), time.Time{})
 	}
 }
 
